@@ -15,6 +15,7 @@ from a seeded generator), plus random strings.  On each input b:
  C10  decoding, formatting and executing leave every shared object unchanged: (size, sf, etype,
       ref) of every register / slice exported by the architecture's env module, and env.internals.
 """
+import importlib
 import pickle
 import random
 import time
@@ -28,6 +29,23 @@ from specs.fmtsem import fmtsem
 
 X86 = ("amoco.arch.x86.cpu_x86", "amoco.arch.x64.cpu_x64")
 PFX86 = [0x66, 0x67, 0xF2, 0xF3, 0x2E, 0x36, 0x3E, 0x26, 0x64, 0x65, 0xF0]
+
+
+def size_variants(mn, d, mode, seed):
+    "x86/x64: every specification under an operand-size (66) and an address-size (67) override"
+    rng = random.Random("rt-sizes/%s/%s" % (mn, seed))
+    out = []
+    for s in flat(d.specs[mode]):
+        try:
+            f = fmtsem(s.format)
+        except Exception:
+            continue
+        blen = f.nbits // 8
+        word = f.fix | (rng.getrandbits(f.nbits) & ~f.mask)
+        b = word.to_bytes(blen, "little") + bytes(rng.getrandbits(8) for _ in range(max(1, d.maxlen - blen - 1)))
+        out.append(b"\x66" + b)
+        out.append(b"\x67" + b)
+    return out
 
 
 def corpus(mn, d, mode, k, rng, nrandom):
@@ -87,6 +105,16 @@ def sig(e):
     return "%s@%s" % (type(e).__name__, where)
 
 
+def sig_arch(e):
+    "like sig, but names the innermost frame of the ISA package (the semantics / formatting function), not the generic helper that raised"
+    import traceback
+    tb = traceback.extract_tb(e.__traceback__)
+    for fr in reversed(tb):
+        if "/amoco/arch/" in fr.filename and not fr.filename.endswith("arch/core.py"):
+            return "%s@%s:%s" % (type(e).__name__, fr.filename.split("/amoco/")[-1], fr.name)
+    return sig(e)
+
+
 class Forced(object):
     def __init__(self, d, mode):
         self.d, self.mode = d, mode
@@ -139,6 +167,8 @@ def _run(prop, mn, tier, seed, only=None):
         L = corpus(mn, d, mode, K, rng, 60 if tier == "quick" else 600)
         if mn in X86 and tier == "quick":
             L = rng.sample(L, min(len(L), 500))
+        if mn in X86 and prop == "C17":
+            L = L + size_variants(mn, d, mode, seed)
         if only is not None:
             if only.get("mode") != mode:
                 continue
@@ -178,7 +208,7 @@ def _run(prop, mn, tier, seed, only=None):
                 if len(samples) < 3:
                     samples.append({"bytes": b.hex(), "instruction": "%s" % (desc,)})
                 if prop == "C17":
-                    bad = check_wellformed(i, desc)
+                    bad = check_wellformed(i, desc, importlib.import_module(mn))
                     for kind, detail in bad:
                         fails.append((dict(inp, sig=kind), "%s %s: %s" % (desc[1], b.hex(), detail)))
                 elif prop == "C05":
@@ -203,8 +233,9 @@ def _run(prop, mn, tier, seed, only=None):
     return n, fails, samples, len(distinct)
 
 
-def check_wellformed(i, desc):
+def check_wellformed(i, desc, cpu=None):
     bad = []
+    seen = set()
     if not isinstance(i.mnemonic, str) or not i.mnemonic:
         bad.append(("wf:mnemonic", "mnemonic is %r" % (i.mnemonic,)))
     if i.type not in AC.INSTRUCTION_TYPES:
@@ -220,6 +251,7 @@ def check_wellformed(i, desc):
             bad.append(("wf:str", "str() returned %r" % type(s)))
     except Exception as e:
         bad.append(("str:" + sig(e), "formatting raised %s: %s" % (sig(e), str(e)[:80])))
+        seen.add(sig(e))
         s = None
     try:
         j = pickle.loads(pickle.dumps(i))
@@ -231,7 +263,60 @@ def check_wellformed(i, desc):
         i(mapper())
     except Exception as e:
         bad.append(("exec:" + sig(e), "instruction(mapper()) raised %s: %s" % (sig(e), str(e)[:80])))
+        seen.add(sig(e))
+    if cpu is None:
+        return bad
+    # the same instruction located in a program (as the sweeps and the emulator do) ...
+    saved = i.address
+    try:
+        for a in (0x1000, 0xFFF0):
+            i.address = E.cst(a, _pcsize(cpu))
+            i.misc.pop("to", None)
+            try:
+                str(i)
+            except Exception as e:
+                if sig(e) in seen:       # the failure already reported without an address
+                    break
+                seen.add(sig(e))
+                bad.append(("str@addr:" + sig(e), "formatting with address %#x raised %s: %s" % (a, sig(e), str(e)[:80])))
+                break
+        # ... and applied to states in which every register holds a constant (all zero, all ones, seeded)
+        for name, val in (("zeros", lambda r: 0), ("ones", lambda r: (1 << r.size) - 1), ("seeded", lambda r: krng.getrandbits(r.size))):
+            krng = random.Random("state/%s" % desc[1])
+            S = mapper()
+            for r in _registers(cpu):
+                S[r] = E.cst(val(r), r.size)
+            try:
+                i(S)
+            except Exception as e:
+                if sig(e) in seen:       # the failure already reported on the empty map / another state
+                    continue
+                seen.add(sig(e))
+                bad.append(("exec@state:" + sig_arch(e), "instruction applied to a state with %s registers raised %s: %s" % (name, sig(e), str(e)[:80])))
+    finally:
+        i.address = saved
+        i.misc.pop("to", None)
     return bad
+
+
+_REGS = {}
+
+
+def _registers(cpu):
+    if cpu not in _REGS:
+        out = []
+        for r in getattr(cpu, "registers", []):
+            if isinstance(r, E.exp) and r._is_reg and not r._is_slc and not r._is_ext and r.size and r.size <= 64:
+                out.append(r)
+        _REGS[cpu] = out
+    return _REGS[cpu]
+
+
+def _pcsize(cpu):
+    try:
+        return cpu.PC().size
+    except Exception:
+        return 32
 
 
 def check_prefix(d, b, i, desc, rng):
